@@ -36,7 +36,11 @@ static void vf_log_flush(void) {
   vf_loglen = 0;
 }
 static void vf_log_raw(const char* s, size_t n) {
-  if (vf_log_fd < 0 || !vf_log_enabled) return;
+  if (!vf_log_enabled) return;
+  if (vf_log_fd < 0) {   /* before the trace file is open (allocator start-up): keep in the buffer */
+    if (vf_loglen + n <= VF_LOGBUF) { memcpy(vf_logbuf + vf_loglen, s, n); vf_loglen += n; }
+    return;
+  }
   if (vf_loglen + n > VF_LOGBUF) vf_log_flush();
   if (n > VF_LOGBUF) { (void)!write(vf_log_fd, s, n); return; }
   memcpy(vf_logbuf + vf_loglen, s, n);
